@@ -853,7 +853,7 @@ def describe(spec):
 
 def correspondence(ctx):
     rs = ctx.np_rng("K")
-    n = ctx.n(90, 900)
+    n = ctx.n(200, 1500)
     specs = corpus_specs() + [gen_spec(rs) for _ in range(n)]
     specs.append(shipped_spec(ctx.n(10, 40)))
     specs.append(shipped_spec(ctx.n(10, 40), pattern="late_end"))
@@ -904,7 +904,7 @@ def correspondence(ctx):
 def oracle(ctx, scale):
     rs = ctx.np_rng("S%d" % scale)
     S = ctx.cov["S"]
-    n = ctx.n(60, 600) * scale
+    n = ctx.n(150, 1500) * scale
     fails = 0
     hist = {}
     for i in range(n):
@@ -918,12 +918,11 @@ def oracle(ctx, scale):
         _, bad = check_spec(ctx, shipped_spec(ctx.n(20, 300)), "S case (shipped BMIM/BF4)")
         fails += bool(bad)
         molgen.purge()
-        if not ctx.quick:
-            spec = wrap_spec(rs)
-            _, bad = check_spec(ctx, spec, "S case (more than 100000 written atoms)")
-            fails += bool(bad)
-            S["atom_number_wrap_case_atoms"] = sum(len(spec["species"][t]["aa_atoms"]) for t in spec["tokens"])
-            molgen.purge()
+        spec = wrap_spec(rs)       # the written atom numbers pass 99999 -> 0
+        _, bad = check_spec(ctx, spec, "S case (more than 100000 written atoms)")
+        fails += bool(bad)
+        S["atom_number_wrap_case_atoms"] = sum(len(spec["species"][t]["aa_atoms"]) for t in spec["tokens"])
+        molgen.purge()
     S["sessions_x%d" % scale] = n
     S["pattern_histogram_x%d" % scale] = hist
     S["failures"] = S.get("failures", 0) + fails
@@ -942,6 +941,7 @@ def wrap_spec(rs):
     sp["aa_vel"] = None
     ncopies = 100000 // len(sp["aa_atoms"]) + 20
     spec = relayout(rs, spec, [k] * ncopies, [k])
+    spec["pattern"] = "atom_number_wrap"
     return spec
 
 
